@@ -691,6 +691,30 @@ func constValues(f *ast.File, typeName string, names []string) map[string]string
 	}
 	for _, d := range f.Decls {
 		gd, ok := d.(*ast.GenDecl)
+		if ok && gd.Tok == token.VAR {
+			// named package-level vars initialised with an integer literal (`var x uint16 = 501`) or a
+			// single-byte slice literal (`var X = []byte{0x02}`); only when asked for by name (C01)
+			for _, sp := range gd.Specs {
+				vs := sp.(*ast.ValueSpec)
+				if len(vs.Names) != 1 || len(vs.Values) != 1 || !want[vs.Names[0].Name] {
+					continue
+				}
+				e := vs.Values[0]
+				if cl, ok := e.(*ast.CompositeLit); ok {
+					at, isArr := cl.Type.(*ast.ArrayType)
+					if !isArr || at.Len != nil || exprStr(at.Elt) != "byte" || len(cl.Elts) != 1 {
+						continue
+					}
+					e = cl.Elts[0]
+				}
+				if bl, ok := e.(*ast.BasicLit); ok && bl.Kind == token.INT {
+					if v, ok := evalConst(bl, 0, res); ok {
+						res[vs.Names[0].Name] = v
+					}
+				}
+			}
+			continue
+		}
 		if !ok || gd.Tok != token.CONST {
 			continue
 		}
